@@ -314,7 +314,7 @@ def sub_random(ctx):
             return replay_cell(ctx, case)
         return body(case)
 
-    ctx.hyp(strat, body_case, ctx.n(40, 1500))
+    ctx.hyp(strat, body_case, ctx.n(150, 1500))
     strat3 = st.lists(st.tuples(ANYINT, ANYINT, st.one_of(st.integers(1, M63 - 1), st.integers(1, 1000), NEAR)), min_size=40, max_size=40)
 
     def body3(case):
@@ -322,7 +322,7 @@ def sub_random(ctx):
             return replay_cell(ctx, case)
         run_rows(ctx, MOD_OPS, case, 3, "random3")
 
-    ctx.hyp(strat3, body3, ctx.n(20, 600))
+    ctx.hyp(strat3, body3, ctx.n(60, 600))
     strat1 = st.lists(st.tuples(ANYNUM), min_size=40, max_size=40)
 
     def body1(case):
@@ -330,7 +330,7 @@ def sub_random(ctx):
             return replay_cell(ctx, case)
         run_rows(ctx, UN_OPS, case, 1, "random1")
 
-    ctx.hyp(strat1, body1, ctx.n(10, 300))
+    ctx.hyp(strat1, body1, ctx.n(30, 300))
 
 
 def sub_literals(ctx):
